@@ -1,7 +1,7 @@
 (* Properties_C19.v -- C19: diff and staged modes check exactly what git says changed.
    Property theorems only; each is closed by [exact <lemma>] and followed by Print Assumptions.
    The model is Git/TreeDiff.v (git/diff.rs, commands/check/check_git_diff.rs, check_scan.rs) AFTER
-   the repairs fixes/D21, D22, D32, D33, D34, D70, D71, D105; the lemmas are in Git/Proofs_C19.v.
+   the repairs fixes/D21, D22, D32, D33, D34, D70, D71, D105, D190; the lemmas are in Git/Proofs_C19.v.
 
    Reading guide.  A commit tree is a [gentry]; [blob_at t p] is the regular file at path p as git
    records it: (executable bit, content); None for directories, symbolic links, submodules, nothing.
@@ -80,11 +80,12 @@ Theorem C19_diff_files_exact : forall canon bes tes files,
 Proof. exact diff_files_exact. Qed.
 Print Assumptions C19_diff_files_exact.
 
-(* The general form of the final filter, for an arbitrary file-system oracle: a scanned file is
-   kept iff it resolves to a member of the set that is its own canonical spelling. *)
+(* The general form of the final filter, for an arbitrary file-system oracle: a scanned or listed
+   file is kept iff it is its own canonical spelling (no symbolic link on the way, fix D190) and a member
+   of the set. *)
 Theorem C19_filter_general : forall canon files set f,
   In f (filter_by_set canon files set) <->
-  In f files /\ exists c, canon f = Some c /\ In c set /\ canon c = Some c.
+  In f files /\ canon f = Some f /\ In f set.
 Proof. exact filter_by_set_spec. Qed.
 Print Assumptions C19_filter_general.
 
@@ -116,14 +117,14 @@ Proof. exact staged_files_exact. Qed.
 Print Assumptions C19_staged_exact.
 
 (* check --diff / --staged together with --files L (fix D105): a listed file is evaluated iff it is
-   evaluated by --files L alone AND it is a member of the changed / staged set (compared by canonical
-   path, members behind symbolic links dropped as in C19_filter_general); its result is the same.
+   evaluated by --files L alone AND it names itself (it is no symbolic link and is not spelled through a
+   linked directory, fix D190) AND it is a member of the changed / staged set; its result is the same.
    So files outside the set are never reported in this mode either.  [eval] is arbitrary. *)
 Theorem C19_files_list_is_restricted :
   forall (R : Type) (eval : path -> option R) canon set listed f r,
     In (f, r) (fst (listed_run R eval canon (Some set) listed)) <->
     In (f, r) (fst (listed_run R eval canon None listed)) /\
-    In f listed /\ exists c, canon f = Some c /\ In c set /\ canon c = Some c.
+    In f listed /\ canon f = Some f /\ In f set.
 Proof. exact listed_run_spec. Qed.
 Print Assumptions C19_files_list_is_restricted.
 
@@ -236,3 +237,20 @@ Example C19_files_list_witness :
   fst (listed_run N (fun _ => Some 1) (fun p => Some p) (Some [[[98]]]) [[[97]]]) = [].
 Proof. split; vm_compute; reflexivity. Qed.
 Print Assumptions C19_files_list_witness.
+
+(* D190: link.rs -> a.rs, the changed set holds a.rs only; the filter as it was after D34 / D105
+   ([filter_by_set_v1]) kept the listed link.rs, the repaired filter drops it and keeps a.rs *)
+Example C19_filter_refuted_before_D190 :
+  exists canon files set f,
+    In f (filter_by_set_v1 canon files set) /\ ~ In f set.
+Proof.
+  exists (canon_of [([[108]], [[97]]); ([[97]], [[97]])]), [[[108]]; [[97]]], [[[97]]], [[108]].
+  split; [vm_compute; left; reflexivity|].
+  intros [H|[]]. discriminate.
+Qed.
+Print Assumptions C19_filter_refuted_before_D190.
+
+Example C19_filter_symlink_witness :
+  filter_by_set (canon_of [([[108]], [[97]]); ([[97]], [[97]])]) [[[108]]; [[97]]] [[[97]]] = [[[97]]].
+Proof. vm_compute. reflexivity. Qed.
+Print Assumptions C19_filter_symlink_witness.
